@@ -108,6 +108,15 @@ def generate(rng, profile="any", ndefs=None, nlibs=None, style="simple", max_chi
                                 properties=props)
             if r.random() < 0.1:
                 ch["user"] = [1, {"a": "b"}]
+        if nch and nlibs > 1 and r.random() < 0.3:
+            # two cells of the SAME NAME, one in this definition's own library and one in another library, instanced side by
+            # side (own one first): whoever keys anything by cell name alone confuses them
+            own = [x for x in defs if x.library is d.library and x.name]
+            pairs = [(a_, b_) for a_ in own for b_ in defs if b_.library is not d.library and b_.name == a_.name]
+            if pairs:
+                a_, b_ = r.choice(pairs)
+                d.create_child(maybe(nm(("i", id(d)), "same_own")), reference=a_)
+                d.create_child(maybe(nm(("i", id(d)), "same_foreign")), reference=b_)
         ncab = r.randint(0 if nch else (1 if kind < 0.08 else 0), 5)
         for j in range(ncab):
             w = r.choice([1, 1, 1, 2, 3])
@@ -150,6 +159,17 @@ def generate(rng, profile="any", ndefs=None, nlibs=None, style="simple", max_chi
         if (top.name.lower()) not in nm.used.get(("d", k), ()):
             dec = libs[k].create_definition(nm(("d", k), top.name))
             mk_ports(dec, 1, 2)
+    if r.random() < 0.2:
+        # a library declared LAST that is needed only through a cell whose name also exists in the library that needs it
+        users = [x for x in defs if x.children and x.library is not None and
+                 any(c.reference.library is x.library and c.reference.name for c in x.children)]
+        if users:
+            u_ = r.choice(users)
+            own = r.choice([c.reference for c in u_.children if c.reference.library is u_.library and c.reference.name])
+            late = n.create_library(nm("libs", "late_prims"))
+            twin = late.create_definition(own.name)
+            mk_ports(twin, 1, 2)
+            u_.create_child(maybe(nm(("i", id(u_)), "uses_late_twin")), reference=twin)
     if outside and r.random() < 0.4:
         # instances outside the top hierarchy sharing definitions with it
         d = libs[-1].create_definition(nm(("d", nlibs - 1), "OUTSIDE"))
